@@ -150,3 +150,40 @@ func R_C11_shared() {
 	}
 	wg.Wait()
 }
+
+// H_C11_bess: the BESS plug-in object is shared by all associations and has no
+// lock: what it holds besides the gRPC client (the QCI -> burst configuration
+// map) must stay read-only once the associations run. Create / modify / delete
+// for a session whose QERs carry a configured and an unconfigured QFI.
+func H_C11_bess() {
+	env := vNewBess()
+	vReadOnly(env.b.qciQosMap, "bess.qciQosMap")
+	r := vRulesOf(0)
+	r.qers[0].qfi = []uint8{9, 5, 67}[vChoose("qfi", 3)] // configured, configured without minimums, not configured
+	vAssert("create-accepted", env.b.SendMsgToUPF(upfMsgTypeAdd, r, r) == ie.CauseRequestAccepted)
+	if vBool("modify") {
+		r.qers[0].ulMbr = 3000
+		vAssert("modify-accepted", env.b.SendMsgToUPF(upfMsgTypeMod, r, PacketForwardingRules{qers: r.qers[:1]}) == ie.CauseRequestAccepted)
+	}
+	env.b.SendMsgToUPF(upfMsgTypeDel, r, PacketForwardingRules{})
+	vCover("bess")
+}
+
+// R_C11_bess: two associations' goroutines driving the one BESS plug-in object.
+func R_C11_bess() {
+	env := vNewBess()
+	var wg sync.WaitGroup
+	for g := 0; g < 2; g++ {
+		wg.Add(1)
+		go func(g int) {
+			defer wg.Done()
+			for n := 0; n < 20; n++ {
+				r := vRulesOf(g*100 + n%3)
+				r.qers[0].qfi = uint8(60 + (g*20+n)%40)
+				env.b.SendMsgToUPF(upfMsgTypeAdd, r, r)
+				env.b.SendMsgToUPF(upfMsgTypeDel, r, PacketForwardingRules{})
+			}
+		}(g)
+	}
+	wg.Wait()
+}
